@@ -98,6 +98,7 @@ class Case:
         self.kernels = []
         self.driver_name = 'driver'
         self.literal_kind_temps = 0
+        self.n_temps = 0
 
 
 class SccGen:
@@ -784,6 +785,7 @@ class SccGen:
                 todo += k.calls
         order = sorted(reach, key=lambda k: -int(k.name.split('_')[1][1:]))   # callees first
         self.case.kernels = [k.name for k in order]
+        self.case.n_temps = sum(len(k.temps) + (1 if k.cscratch else 0) for k in order)
         mods = {}
         for k in order:
             mods.setdefault(k.module, []).append(k)
